@@ -329,8 +329,45 @@ func checkC17(ctx *core.Ctx, rep *core.Report) {
 		}
 		rec(0, nil)
 	}
-	// ---- corpus seeds: SAN order and extension order -----------------------------------
+	// ---- harvested atoms: every kind of name the repository's own test certificates carry ------
+	// The hand-made alphabet above knows the name shapes its author thought of. The corpus knows the ones the lints
+	// were written for: every distinct GeneralName of every corpus SAN is tried alone on the TLS template, and kept if it
+	// reaches a (lint, status) pair no atom before it reached (greedy cover, deterministic order). Every pair
+	// {harvested, any atom} is then linted in both orders.
 	all := seeds.Load()
+	harvested := c17Harvest(all, tmpls["tls_leaf"], atoms, rep)
+	rep.Add("g_harvested_san_atoms", int64(len(harvested)))
+	allAtoms := append(append([]struct {
+		name string
+		gn   *der.Node
+	}{}, atoms...), harvested...)
+	for hi, h := range harvested {
+		for ai, a := range allAtoms {
+			if ai >= len(atoms) && ai-len(atoms) < hi {
+				continue // unordered pair of two harvested atoms: once
+			}
+			idx++
+			if !ctx.Mine(idx) {
+				continue
+			}
+			for _, tn := range tnames {
+				if tn != "tls_leaf" && (ctx.Quick() || ai < len(atoms)) {
+					continue
+				}
+				b := tmpls[tn](certgen.SAN(false, h.gn.Clone(), a.gn.Clone()))
+				root, err := der.Parse(b)
+				if err != nil {
+					continue
+				}
+				if sn := sanNames(root); sn != nil {
+					rep.Inc("san_multisets")
+					rep.Inc("san_multisets_with_harvested_atom")
+					report(c17Class(root, sn, "SAN entries", rep), fmt.Sprintf("template %s SAN [%s %s]", tn, h.name, a.name))
+				}
+			}
+		}
+	}
+	// ---- corpus seeds: SAN order and extension order -----------------------------------
 	for i := range all {
 		sd := &all[i]
 		if sd.Kind != seeds.Cert {
@@ -390,4 +427,95 @@ func replayC17(rp map[string]interface{}) (string, error) {
 		}
 	}
 	return "", nil
+}
+
+// c17Harvest: the distinct GeneralNames of all corpus SANs, reduced to a greedy (lint, status) cover on the template.
+func c17Harvest(all []seeds.Seed, build func(san *der.Node) []byte, hand []struct {
+	name string
+	gn   *der.Node
+}, rep *core.Report) []struct {
+	name string
+	gn   *der.Node
+} {
+	g := lint.GlobalRegistry()
+	pairsOf := func(gn *der.Node) map[string]bool {
+		b := build(certgen.SAN(false, gn.Clone()))
+		o, err := zl.Parse(seeds.Cert, b)
+		if err != nil {
+			return nil
+		}
+		v := statusVector(o, g)
+		if v == nil {
+			return nil
+		}
+		m := map[string]bool{}
+		for n, st := range v {
+			m[n+"|"+st.String()] = true
+		}
+		return m
+	}
+	seen := map[string]bool{}
+	for _, a := range hand {
+		for k := range pairsOf(a.gn) {
+			seen[k] = true
+		}
+	}
+	cand := map[string]*der.Node{}
+	for i := range all {
+		if all[i].Kind != seeds.Cert {
+			continue
+		}
+		root, err := der.Parse(all[i].DER)
+		if err != nil {
+			continue
+		}
+		sn := sanNames(root)
+		if sn == nil {
+			continue
+		}
+		for _, c := range sn.Children {
+			cp := c.Clone()
+			k := hex.EncodeToString(cp.Encode())
+			if len(k) <= 600 {
+				cand[k] = cp
+			}
+		}
+	}
+	keys := make([]string, 0, len(cand))
+	for k := range cand {
+		keys = append(keys, k)
+	}
+	sort.Strings(keys)
+	var out []struct {
+		name string
+		gn   *der.Node
+	}
+	for _, k := range keys {
+		p := pairsOf(cand[k])
+		fresh := false
+		for x := range p {
+			if !seen[x] {
+				fresh = true
+				seen[x] = true
+			}
+		}
+		if fresh {
+			gn := cand[k]
+			label := fmt.Sprintf("corpus:[%d]%q", gn.Tag, string(gn.Content))
+			if gn.Constructed {
+				label = "corpus:" + k[:min(40, len(k))]
+			}
+			out = append(out, struct {
+				name string
+				gn   *der.Node
+			}{label, gn})
+		}
+		if len(out) >= 80 {
+			break
+		}
+	}
+	if rep != nil {
+		rep.Add("g_distinct_corpus_general_names", int64(len(keys)))
+	}
+	return out
 }
